@@ -227,6 +227,20 @@ func c01Templates() []string {
 		`str = "xyz"; f = func() {r = ""; for c = str {r = c + r}; r}; println(f())`,
 		`println(for 0 {1}, for i = 0 {1}, catch(for -1 {1}).err, catch(for "a" {1}).err, catch(for 1.5 {1}).err)`,
 	)
+	// comparison, equality and map-key use of containers NESTING values on both sides of the size thresholds (a small array
+	// holding a large array, a large map, a function ...): every representation pair must compare structurally
+	inner := []string{"[1, 2, 3, 4, 5, 6, 7, 8, 9]", "0:9", "{1: 1, 2: 2, 3: 3, 4: 4, 5: 5}", "(x => x)", "[0:9]", "{1: 0:9}", "[1, 2]", "{1: 1}", `"s"`, "1.5", "nil", "[]", "{}", "[(x => x), 0:9]"}
+	for i, a := range inner {
+		for _, wrap := range []string{"[%s]", "[1, %s]", "{1: %s}", "[[%s]]", "[%s, %s]"} {
+			w := strings.ReplaceAll(wrap, "%s", a)
+			t = append(t, fmt.Sprintf(`a = %s; b = %s; println(a == b, a != b, a < b, a <= b, catch(a == a).value)`, w, w))
+			if !strings.Contains(a, "=>") {
+				t = append(t, fmt.Sprintf(`a = %s; m = {a: 1}; println(m[a], m[%s], len(m + {%s: 2}))`, w, w, w))
+			}
+			o := strings.ReplaceAll(wrap, "%s", inner[(i+1)%len(inner)])
+			t = append(t, fmt.Sprintf(`a = %s; b = %s; println(a == b, a < b, b < a, a <= b, a >= b)`, w, o))
+		}
+	}
 	return t
 }
 
